@@ -44,7 +44,7 @@ func drawC02(rt *rapid.T, p *Plan, tier string) *Plan {
 	p.Blocks = drawBlocks(rt, 2, maxB, p.Proto.P2PSig)
 	l := drawLocal(rt, len(p.Blocks))
 	l.RestartPlan = nil
-	l.FlushMode = 1 + rapid.IntRange(0, 1).Draw(rt, "vflush")
+	l.FlushMode = 1 + rapid.IntRange(0, 1).Draw(rt, "vflush") // (the concurrent flush of C02 is drawn separately)
 	p.Locals = []Local{l}
 	cp := &CrashPlan{}
 	cp.Scenario = rapid.IntRange(0, 3).Draw(rt, "scenario") / 3 // 1 in 4 runs exercises reset
